@@ -12,7 +12,7 @@ import Hts.Lemmas.SamReader
 import Hts.Lemmas.SamNoHeader
 import Hts.Lemmas.SamSpec
 import Hts.Lemmas.SamBam
-import Hts.Props.C05
+import Hts.Lemmas.BamStream
 namespace Hts.Props.C06
 open Hts.Model.SamText Hts.Model.SamBam
 open Hts.Model.Coord (CigarOp)
@@ -123,17 +123,21 @@ theorem repOK_of_expressible (h : Header) (r : Record) (he : Expressible h r) (h
    fun a ha => ⟨auxRep_of_auxOK a (he.2.2.2.2.2.2 a ha), hb.2.2.2.2.2.1 a ha⟩⟩
 
 /-- **SAM and BAM views agree** (formal bridge between C05's and C06's record models).  For every expressible
-record within the ranges of the BAM format and without a zero byte in an `H` value: the BAM writer accepts
-its memory form `toBam r`; reading the written bytes back (C05.decode_encode) gives a memory form that
+record within the ranges of the BAM format (`H` values may hold any bytes, zero included: the writer stores
+them as hex digits, repair bfe0bfe): the BAM writer accepts
+its memory form `toBam r`; reading the written bytes back (C05's `decode_encode`, used here through its lemma
+`readRecord_encodeRecord`) gives a memory form that
 `ofBam` decodes to a record, namely `norm r`, and that record formats to the SAM line of `r`, in every flag
 format. -/
 theorem bam_roundtrip_then_sam (ft : FloatText) (f : FlagFmt) (h : Header) (r : Record) (he : Expressible h r)
-    (hb : BamRange h r) (hx : HexNulFree r) :
+    (hb : BamRange h r) :
     ∃ bs, Hts.Model.Bam.encodeRecord (toBam r) = .ok bs ∧
       ∀ rest, ∃ b', Hts.Model.Bam.readRecord .none h.refs.length (bs ++ rest) = .record b' rest ∧
         ofBam h b' = some (norm r) ∧ formatRecord ft f (norm r) = formatRecord ft f r := by
-  obtain ⟨bs, henc, hdec⟩ := Hts.Props.C05.decode_encode (wf_toBam h r he hb hx)
+  -- `readRecord_encodeRecord .none` is the lemma C05.decode_encode states (`expected .none = norm`)
+  obtain ⟨bs, henc, _, hdec⟩ := Hts.Model.Bam.readRecord_encodeRecord .none (wf_toBam h r he hb)
   refine ⟨bs, henc, fun rest => ⟨_, hdec rest, ?_, bam_then_sam ft f r⟩⟩
+  show ofBam h (Hts.Model.Bam.norm (toBam r)) = some (norm r)
   rw [norm_toBam]
   have hrep := repOK_of_expressible h r he hb
   exact ofBam_toBam h (norm r) he.2.1 he.2.2.1 hrep
@@ -316,30 +320,21 @@ example : BamRange exHeader exRecord := by
   intro a ha
   simp only [exRecord, List.mem_cons, List.not_mem_nil, or_false] at ha
   rcases ha with rfl | rfl | rfl | rfl | rfl | rfl | rfl | rfl <;> simp [AuxCountOK]
-example : HexNulFree exRecord := by
-  intro a ha s hs
-  simp only [exRecord, List.mem_cons, List.not_mem_nil, or_false] at ha
-  rcases ha with rfl | rfl | rfl | rfl | rfl | rfl | rfl | rfl <;> simp at hs
-  subst hs; simp
-
 /-- a record with the aux field `XH:H:9F0068` (an `H` value holding a zero byte) -/
 def hexRecord : Record :=
   { name := [114], flags := 4, ref := none, pos := -1, mapq := 0, cigar := [], mateRef := none, matePos := -1,
     tempLen := 0, seq := [], qual := none, aux := [⟨88, 72, .hex [159, 0, 104]⟩] }
 
-/-- the `HexNulFree` hypothesis is needed: for `XH:H:9F0068` everything else holds and the record read back
-from the written bytes is not the record written (its `H` value is cut at the zero byte) -/
-theorem bam_hex_nul_witness :
-    Expressible exHeader hexRecord ∧ BamRange exHeader hexRecord ∧ ¬ HexNulFree hexRecord ∧
+/-- an `H` value holding a zero byte goes through BAM unchanged (evaluated on the codec model: the bytes written
+hold the digits `9F0068`, and what is read back decodes to the record written) -/
+theorem bam_hex_nul_roundtrip :
+    Expressible exHeader hexRecord ∧ BamRange exHeader hexRecord ∧
     ∃ bs b', Hts.Model.Bam.encodeRecord (toBam hexRecord) = .ok bs ∧
-      Hts.Model.Bam.readRecord .none 2 bs = .record b' [] ∧
-      ofBam exHeader b' = some (norm { hexRecord with aux := [⟨88, 72, .hex [159]⟩] }) := by
-  refine ⟨by decide, ⟨by decide, by decide, by decide, by decide, by decide, ?_, by decide⟩, ?_, ?_⟩
+      Hts.Model.Bam.readRecord .none 2 bs = .record b' [] ∧ ofBam exHeader b' = some (norm hexRecord) ∧
+      bs.drop (bs.length - 10) = [88#8, 72#8, 72#8, 57#8, 70#8, 48#8, 48#8, 54#8, 56#8, 0#8] := by
+  refine ⟨by decide, ⟨by decide, by decide, by decide, by decide, by decide, ?_, by decide⟩, ?_⟩
   · intro a ha; simp [hexRecord] at ha; subst ha; trivial
-  · intro hn
-    exact hn ⟨88, 72, .hex [159, 0, 104]⟩ (by simp [hexRecord]) [159, 0, 104] rfl (by decide)
-  · exact ⟨_, Hts.Model.Bam.norm (toBam { hexRecord with aux := [⟨88, 72, .hex [159]⟩] }), rfl,
-      by decide +kernel, by decide +kernel⟩
+  · exact ⟨_, Hts.Model.Bam.norm (toBam hexRecord), rfl, by decide +kernel, by decide +kernel, by decide +kernel⟩
 
 /-- the float laws are satisfiable (a toy float text: the bit pattern in decimal) -/
 def exFloatText : FloatText where
